@@ -419,6 +419,7 @@ func runCase(c Case, choose func(int, []string) int) result {
 		}
 	}
 	w.g.MaxSteps = 2*idgen.MaxAttempts*totalGens + 200
+	w.g.Stall = 500 * time.Millisecond // no lock is held across store operations on the SetNX path: never wait-stall on a slow task
 	if c.Mode == "fallback" {
 		w.g.Stall = 3 * time.Millisecond // the fallback holds a local mutex across two store operations
 	}
@@ -498,6 +499,9 @@ func runCase(c Case, choose func(int, []string) int) result {
 		w.m.checkQuiescent("end")
 	}
 	r.exhausted = w.m.exhaust > 0
+	if c.Mode != "fallback" && w.g.Stalls > 0 {
+		vkit.AddExtra("unexpected_stalls", int64(w.g.Stalls))
+	}
 	// Sequential exhaustion probe: keep generating until the kind is full; every id handed
 	// out must be of a free class, and once all K classes are held Generate must fail with
 	// ErrIDExhausted (not an id, not a hang).
@@ -564,6 +568,7 @@ func runNodeAlloc(c Case, choose func(int, []string) int) result {
 		}
 	}
 	w.g.MaxSteps = 4000
+	w.g.Stall = 500 * time.Millisecond
 	w.g.FailAt = c.FailAt
 	w.g.Activate()
 	for i := range c.Tasks {
